@@ -209,6 +209,24 @@ def judge(ctx, case):
                     ctx.viol("malformed DER accepted: %s" % name, {"der": b.hex(), "via": via, "parsed": str(p["ok"])[:150]})
                 elif "panic" in p:
                     ctx.note("malformed DER panics (C09): %s" % name)
+        # DER || flag || flag through SighashSignature::from_bytes: exactly one flag byte may follow the DER part
+        for f1 in rnd.sample(FLAGS, 4):
+            for f2 in rnd.sample(FLAGS, 2):
+                ctx.hit("der_bad")
+                p = ctx.call({"op": "sig_from_der", "hex": (good + bytes([f1, f2])).hex(), "via": "sighash"})
+                ctx.ev()
+                if "ok" in p:
+                    ctx.viol("SighashSignature::from_bytes accepts DER followed by two flag bytes", {"hex": (good + bytes([f1, f2])).hex()})
+        for name, b in fam.items():
+            if ec.der_parse_strict(b) is not None:
+                continue
+            # the same malformed DER followed by a sighash flag byte, through SighashSignature::from_bytes
+            for f in (0x41, 0x01, 0xC3):
+                ctx.hit("der_bad")
+                p = ctx.call({"op": "sig_from_der", "hex": (b + bytes([f])).hex(), "via": "sighash"})
+                ctx.ev()
+                if "ok" in p:
+                    ctx.viol("SighashSignature::from_bytes accepts malformed DER followed by a flag byte: %s" % name, {"der": b.hex(), "flag": f})
     elif k == "compact_bad":
         body = bytes.fromhex(case["r"]) + bytes.fromhex(case["s"])
         bad = [(bytes([h]) + body, "header %s" % ("< 27" if h < 27 else "> 34")) for h in (0, 1, 26, 35, 36, 100, 154, 155, 156, 157, 158, 159, 200, 255)]
